@@ -1060,6 +1060,7 @@ class DataGen:
         self.rng, self.gs, self.used, self.p = rng, gs, used_fields, p_bad
         self.all_nonnull = all_nonnull      # also generate unselected non-null fields (conformance)
         self.injected = []
+        self.nodes = 0                       # size budget: beyond it the graph is closed off minimally
 
     def leaf(self, n):
         r = self.rng
@@ -1077,6 +1078,9 @@ class DataGen:
 
     def value(self, t, depth, nullable=True):
         r, gs, p = self.rng, self.gs, self.p
+        self.nodes += 1
+        if self.nodes > 2500:
+            depth = min(depth, 0)
         if p and r.random() < p:
             self.injected.append("raise")
             return Raise("boom")
